@@ -334,6 +334,7 @@ def replay(prop):
 def main(prop, tier):
     camp = Campaign(prop, tier)
     n = N_QUICK[prop] if tier == "quick" else N_THOROUGH[prop]
+    n = int(__import__("os").environ.get("VERIF_CASES", n))     # experiments only
     base = camp.seed * 1000003 + (6000 if prop == "C06" else 7000)
     if prop == "C06":
         camp.rule = ("unsat-biased histories in all 17 logics with named/unnamed/nested-named assertions, planted "
